@@ -107,6 +107,7 @@ func cfgFor(prop string) propCfg {
 var propOverrides = map[string]func(*propCfg){
 	"C02": func(c *propCfg) { c.quickRuns, c.quickSecs = 1500, 100 },
 	"C39": func(c *propCfg) { c.quickRuns, c.quickSecs = 800, 90 },
+	"C07": func(c *propCfg) { c.quickRuns, c.quickSecs = 700, 110 },
 	"C11": func(c *propCfg) {
 		c.level = "fault_enumeration"
 		c.plans = func(base uint64, tier string) []*plan.Plan {
@@ -540,3 +541,48 @@ func init() {
 }
 
 var extraCmds = map[string]func([]string){}
+
+func init() {
+	extraCmds["stress"] = func(args []string) {
+		prop := args[0]
+		seed, _ := strconv.ParseUint(args[1], 10, 64)
+		n, _ := strconv.Atoi(args[2])
+		cfg := cfgFor(prop)
+		b, err := build(cfg.race, true)
+		if err != nil {
+			fatal2("%v", err)
+		}
+		defer cleanup(b)
+		hist := map[string]int{}
+		seenHash := map[string]bool{}
+		var mu sync.Mutex
+		var wg sync.WaitGroup
+		sem := make(chan struct{}, runtime.NumCPU())
+		for i := 0; i < n; i++ {
+			wg.Add(1)
+			sem <- struct{}{}
+			go func() {
+				defer wg.Done()
+				defer func() { <-sem }()
+				p := plan.Generators[prop](seed)
+				p.K["addrprobe"] = 1
+				p.K["keeplog"] = 1
+				p.K["logtail"] = 2000000
+				p.K["logring"] = 2000000
+				p.K["wirelog"] = envInt("VERIF_WIRELOG", 0)
+				r := runChild(b, p, cfg.wallLimit)
+				mu.Lock()
+				if !seenHash[r.TraceHash] {
+					seenHash[r.TraceHash] = true
+					os.WriteFile("/tmp/stress-"+r.TraceHash+".log", []byte(strings.Join(r.Log, "\n")), 0o644)
+				}
+				hist[fmt.Sprintf("%s threads=%d/%d addr=%x viol=%d infra=%q", r.TraceHash, r.Stats["threads_at_start"], r.Stats["threads_at_end"], r.Stats["addr_probe"], len(r.Violations), firstLine(r.Infra, 60))]++
+				mu.Unlock()
+			}()
+		}
+		wg.Wait()
+		for k, v := range hist {
+			fmt.Println(v, k)
+		}
+	}
+}
